@@ -5,7 +5,7 @@ Require Import PonyV.Base.PyBase PonyV.Model.C06Str PonyV.Model.C06Lex PonyV.Mod
                PonyV.Model.C06Stmt PonyV.Proofs.C06StrLemmas PonyV.Proofs.C06Proofs.
 
 (* MySQL treats backslash as an escape character in string literals (default sql_mode); Pony renders MySQL literals with the
-   generic quote_str, which does not double it: the one-character string "\" does not read back *)
+   generic quote_str, which does not double it: the one-character string consisting of a backslash does not read back *)
 Theorem C06_literal_mysql_refuted :
   match server_text Format (mysql_value_str Format [92]) with Some t => lex_mysql t | None => None end <> Some [92].
 Proof. exact literal_mysql_refuted. Qed.
@@ -28,3 +28,12 @@ Theorem C06_ident_fmt_refuted :
   /\ fmt_subst (quote_name 34 [97; 37; 98]) = None.
 Proof. exact ident_fmt_refuted. Qed.
 Print Assumptions C06_ident_fmt_refuted.
+
+(* PostgreSQL / MySQL (documentation): LIKE without ESCAPE treats the backslash as escape character; the constant branch of
+   _like adds ESCAPE only when the constant contains % or _ : a constant containing a backslash (here: the one-character
+   string) misses the subject a\b and matches the subject a% *)
+Theorem C06_like_const_backslash_refuted :
+  like_of_bs (like_const_contains [92]) [97; 92; 98] = false /\ is_infix [92] [97; 92; 98]
+  /\ like_of_bs (like_const_contains [92]) [97; 37] = true /\ ~ is_infix [92] [97; 37].
+Proof. exact like_const_bs_refuted. Qed.
+Print Assumptions C06_like_const_backslash_refuted.
